@@ -2,6 +2,7 @@ mod bounds;
 mod cmp;
 mod props_bounds;
 mod props_tp;
+mod props_hyg;
 mod eval;
 mod gate;
 mod index;
@@ -55,6 +56,9 @@ fn main() {
         "C05" => props::c05(&cx),
         "C06" => props::c06(&cx),
         "C17" => props::c17(&cx),
+        "C12" => props_hyg::c12(&cx),
+        "C13" => props_hyg::c13(&cx),
+        "C20" => props_hyg::c20(&cx),
         "C07" => props_tp::c07(&cx),
         "C08" => props_tp::c08(&cx),
         "C09" => props_tp::c09(&cx),
